@@ -93,8 +93,8 @@ class _:
 class _:
     sig = "(s: Optional[bytes]) -> bytes"
     props = ["C04"]
-    requires = ["s is None or len(s) <= 2147483647"]
     ensures = {"func[C04]": "result == enc_bytes32(s)"}
+    raises = {"struct.error": "iff:s is not None and len(s) > 2147483647"}
 
 
 @contract("afkak._util.write_short_bytes")
